@@ -40,7 +40,8 @@ THEOREMS = [
     'C09_normalize_float_exponent_padding_refuted', 'C09_normal_form_fixed',
     'C09_normalize_float_value',
     'C09_normalize_float_idempotent', 'C09_parse_material_density_fixed',
-    'C09_parse_material_classes', 'C09_pot_fill_provenance',
+    'C09_parse_material_classes', 'C09_like_but_rho',
+    'C09_like_but_void_refuted', 'C09_pot_fill_provenance',
     'C09_provenance_head_is_leaf', 'C09_lattice_elements', 'C09_geomcomp_name',
     'C09_geomcomp_one_line', 'C09_geomcomp_lines', 'C09_compositions_exact',
     'C09_compositions_distinct', 'C09_geomcomp_name_has_composition',
@@ -376,6 +377,68 @@ def tie_material(res, tier, rng):
                       f'parse_material({text!r}): impl {out} differs from the '
                       'model', {'input': {'material': text}, 'observed': out,
                                 'theorem_or_correspondence': 'tie:material'},
+                      found_input=False)
+
+
+def tie_likebut(res, tier, rng):
+    '''parse_one_cell_worker on (material, geometry, options) triples as
+    apply_but builds them for LIKE n BUT cells vs Model.cell_material.'''
+    from t4_geom_convert.Kernel.FileHandlers.Parser.ParseMCNPCell import \
+        ParseMCNPCell
+    n = 200 if tier == 'quick' else 2000
+    cases, meta = [], []
+    with impl.mip_parser(COMP_DECK) as parser:
+        worker = ParseMCNPCell(parser, None, {})
+        for i in range(n):
+            mat = rng.choice(['0', '1', '2', '12', '01', '3'])
+            toks = [mat]
+            if mat != '0' or rng.random() < 0.1:
+                number = c09_gen.gen_number(rng, wild=i % 3 == 0)
+                toks.append(c09_gen.gen_spellings(rng, number, 1,
+                                                  wild=i % 3 == 0)[0][0])
+            kmat = rng.choice([None, None, '2', '0', '02', '5'])
+            krho = None
+            if rng.random() < 0.6:
+                number = c09_gen.gen_number(rng, wild=i % 3 == 1)
+                krho = c09_gen.gen_spellings(rng, number, 1,
+                                             wild=i % 3 == 1)[0][0]
+            options = 'imp:n=1 u=3'
+            if kmat is not None:
+                options += rng.choice([' MAT=', ' mat ']) + kmat
+            if krho is not None:
+                options += rng.choice([' RHO=', ' rho=']) + krho
+            material = ' '.join(toks)
+
+            def call():
+                cell = worker.parse_one_cell_worker(0, None,
+                                                    (material, '-1', options))
+                return (str(cell.materialID), cell.density)
+            out = guarded(call)
+            cases.append(cpair(
+                clist(cstr(t) for t in toks), copt(kmat, cstr),
+                copt(krho, cstr),
+                cres(out, lambda o: cpair(cstr(o[0]), copt(o[1], cstr)))))
+            meta.append((material, options, out))
+            res.seen(('likebut', material, options))
+            res.count('likebut:' + (out[1] if out[0] == 'err' else 'ok'))
+            if out[0] == 'ok' and krho is not None:
+                spelling_violation(res, krho, 'tie:likebut')
+    bad, errs = common.run_case_files(
+        'c09_like', HEADER,
+        'list string * option string * option string * '
+        'res (string * option string)', 'check_cell_material', cases)
+    res.obligation(f'tie:likebut ({len(cases)} cell cards with MAT=/RHO= '
+                   'keywords: parse_one_cell_worker, material and density)',
+                   not bad and not errs,
+                   f'{len(bad)} disagreements {errs[:1]}')
+    for idx in bad[:10]:
+        material, options, out = meta[idx]
+        res.violation('correspondence',
+                      f'parse_one_cell_worker({material!r}, {options!r}): impl '
+                      f'{out} differs from the model',
+                      {'input': {'material': material, 'options': options},
+                       'observed': out,
+                       'theorem_or_correspondence': 'tie:likebut'},
                       found_input=False)
 
 
@@ -822,6 +885,20 @@ def witnesses(res):
                                            f'GEOMCOMP {t4.geomcomp}'),
                       {'input': {'deck': text}},
                       found_input=True)       # repaired in /repo (6d1467b)
+    # LIKE n BUT MAT=0: a void copy keeps the base density
+    text = ('C09 witness\n1 1 -1.0 -1 imp:n=1\n'
+            '2 like 1 but mat=0 trcl=(3 0 0)\n3 0 1 #2 imp:n=0\n\n1 so 1\n\n'
+            'm1 1001 2 8016 1\n')
+    conv = impl.convert(text)
+    lines = impl.T4File(conv.text).geomcomp if conv.ok else None
+    owner = [n for n, ids in (lines or []) if 2 in ids]
+    if owner != ['m0']:
+        res.violation('impl-violation',
+                      'LIKE 1 BUT MAT=0 (base cell of material 1, density '
+                      f'-1.0): the void copy is attached to {owner} '
+                      f'(GEOMCOMP {lines})',
+                      {'input': {'deck': text}, 'observed': lines},
+                      cls='like_but_mat_void', found_input=True)
     # DESIGN §8 #16
     text = witness_deck([('01', '-1.0')])
     conv = impl.convert(text)
@@ -918,6 +995,7 @@ def run(res, tier, seed, proofs_ok):
     tie_norm(res, tier, rng)
     sweep_spellings(res, tier, rng)
     tie_material(res, tier, rng)
+    tie_likebut(res, tier, rng)
     tie_fill(res, tier, rng)
     real = sweep_decks(res, tier, rng)
     tie_geomcomp(res, tier, rng, [r[:4] for r in real])
